@@ -19,6 +19,7 @@ type Item struct {
 	Sample string
 	Chunk  *SeqChunk   // sequential enumeration item (no scheduler search)
 	Cfg    mcrt.Config // MaxSteps/FairAfter overrides (zero = defaults)
+	Race   bool        // run in the race variant of the driver (ThreadSanitizer as per-execution oracle)
 }
 
 type SeqFound struct {
@@ -88,7 +89,7 @@ func specItems(prop string, sp *Spec, bound int, strats []int, tags []string, or
 						x.Event("push-detached")
 					}
 				}
-				for e := range x.Events {
+				for _, e := range x.EventNames() {
 					out.Events = append(out.Events, e)
 				}
 				out.Events = append(out.Events, tags...)
